@@ -29,6 +29,7 @@ def parseSeqOp (t : String) : Option SeqOp :=
   | ["R", h] => some (.setFrameRange (unhex h))
   | ["F", h] => some (.setFrameSet (unhex h))
   | ["N"] => some .normalize
+  | ["V"] => some .invertSet
   | ["C"] => some .copy
   | ["S"] => some .split
   | _ => none
@@ -36,7 +37,7 @@ def parseSeqOp (t : String) : Option SeqOp :=
 /-- the verdict for one call: string invariant plus what the call must (not) change -/
 def checkOp (before after : Seq) : SeqOp → Bool
   | .setDirname d =>
-    strOk after && (d.isEmpty || after.dir == (if isSuffixOf ['/'] d then d else d ++ ['/'])) &&
+    strOk after && (d.isEmpty || after.dir == (if isSuffixOf [Seq.dirSep d] d then d else d ++ [Seq.dirSep d])) &&
     after.base == before.base && after.ext == before.ext && after.pad == before.pad &&
     after.zfill == before.zfill && after.frameRange == before.frameRange
   | .setBasename b =>
@@ -72,6 +73,15 @@ def checkOp (before after : Seq) : SeqOp → Bool
   | .normalize =>
     strOk after && after.base == before.base && after.dir == before.dir && after.ext == before.ext &&
     after.pad == before.pad && after.zfill == before.zfill
+  | .invertSet =>
+    -- the installed set is the complement inside [min,max]: its length is (max-min+1) - len
+    strOk after && after.base == before.base && after.dir == before.dir && after.ext == before.ext &&
+    after.pad == before.pad && after.zfill == before.zfill &&
+    (match before.frameSet with
+     | some fs =>
+       fs.len > 5000 || fs.len == 0 ||
+         after.len == (Spec.listMax fs.frames - Spec.listMin fs.frames + 1) - (fs.frames.eraseDups.length : Int)
+     | none => snap after == snap before)
   | .copy =>
     strOk after && snap after == snap before &&
     (before.len > 300 || after.paths == before.paths)
